@@ -5,11 +5,11 @@ LEVEL_TEXT = ('exploration: the verdicts of the real cssutils.profile.validate /
               'compared with a grammar table written by hand from the CSS 2.1 property index for the 82 properties whose grammar is a keyword list or a single '
               'length / percentage / number / integer / colour / URI, over enumerated value pools (own grammar, every other property\'s keywords, typed literals, near '
               'misses, non-ASCII look-alikes); spelling, origin, round-trip and validate-on/off invariance are checked on the same pools')
-LEVEL_NOTE = ('nothing is proved for all strings: the pools are finite (about 360 values per property at registry level, complete; at Property level own-grammar values and '
+LEVEL_NOTE = ('nothing is proved for all strings: the pools are finite (380 to 1400 values per property at registry level, complete, including numbers at the edges of six-decimal number rewriting; at Property level own-grammar values and '
               'near misses complete, foreign values sampled in the quick tier); CSS escapes in keywords and names are left to C02; the oracle returns "not decided" for '
               'range restrictions (negative values), values added by a registered CSS3 module and display: run-in')
 TECHNIQUE = ('bounded run-time contracts on the real code over enumerated (name, value) pools against an independent hand-written CSS 2.1 grammar table; metamorphic '
-             'respelling (case, white space, comments, !important), eight ways of creating the property, serialise-reparse; all declaration blocks up to a length bound')
+             'respelling (case, white space, comments, !important), eight ways of creating the property, serialise-reparse; all declaration blocks up to a length bound over declarations that repeat a name (later / !important / other letter case wins), parsed and built through the DOM')
 LEVEL_TEXT = LEVEL_TEXT + ' The grammar clause is additionally proved as regular-language equality between the real compiled patterns of the CSS 2.1 profile and the hand-written table for 32 keyword-list and 38 typed properties (T1-regex, all strings, outside the recorded deviation classes).'
 DESIGN_REF = 'DESIGN.md section 3, C13'
 
